@@ -73,7 +73,11 @@ def main():
     pf = os.environ.get("VERIF_REENTRANCY_PROGRAMS")
     if pf:
         import json
-        from harness.drivers import reentrancy
+        from harness.drivers import reentrancy, ctrait_update
+        for prog in ctrait_update.programs():
+            print("PROGRAM default-replaced %s:%s" % prog, flush=True)
+            ctrait_update.run_program(*prog)
+            n += 1
         for prog in json.load(open(pf)):
             print("PROGRAM reentrancy %s" % ":".join(prog), flush=True)
             reentrancy.run_program(*prog)
@@ -88,7 +92,8 @@ def _ledger_ops():
             "list_append_reject", "list_setslice", "dict_setitem", "set_add_discard", "event_fire", "property_set",
             "property_set_raises", "delegate_set", "set_then_del", "set_notify", "set_notify_raising",
             "handler_removed_in_dispatch", "handler_add_remove", "observe_add_remove", "add_remove_trait", "default_read",
-            "trait_setq", "pickle_roundtrip", "getstate_ctrait"]
+            "trait_setq", "pickle_roundtrip", "getstate_ctrait", "default_dyn_ok", "default_dyn_rejected", "default_expr_ok",
+            "default_expr_rejected"]
 
 
 def _sample_cfgs():
